@@ -17,7 +17,12 @@ tvars == <<vars, nh, cg, ct, attAt, firstAt, l>>
 TraceInit == /\ l = 1 /\ pol = [on |-> FALSE, n |-> 0, codes |-> <<>>] /\ script = <<>> /\ att = 0 /\ rem = 0 /\ st = "none"
              /\ last = "none" /\ hosts = <<>> /\ reply = 0 /\ nh = 0 /\ cg = 0 /\ ct = 0 /\ attAt = 0 /\ firstAt = 0
 
-Known(o) == o \in Outcomes
+(* "rclose": an HTTP/1 host closed the connection in an orderly way before answering (reset reason UpstreamReset).
+   The statement's "termination" is bound to the abnormal termination (reason ConnectionTermination); for the orderly
+   close the table is silent: a policy with retry_on may retry it, none has to. *)
+Known(o) == o \in Outcomes \cup {"rclose"}
+May(p, o)  == IF o = "rclose" THEN p.on ELSE Retryable(p, o)
+Must(p, o) == o # "rclose" /\ Retryable(p, o)
 
 TRun == /\ IsEvent("run")
         /\ pol' = Ev.pol /\ script' = Ev.script /\ nh' = Ev.nhosts /\ cg' = Ev.g /\ ct' = Ev.t
@@ -30,7 +35,7 @@ TTmo == /\ IsEvent("tmo")
 
 TAtt == /\ IsEvent("att")
         /\ Expect(reply = 0, "attempt-after-reply-started")
-        /\ Expect(att = 0 \/ ~Known(last) \/ Retryable(pol, last), "retried-outside-configured-conditions:" \o last)
+        /\ Expect(att = 0 \/ ~Known(last) \/ May(pol, last), "retried-outside-configured-conditions:" \o last)
         /\ Expect(att < 1 + Budget(pol), "attempts-exceed-budget")
         /\ Expect(att = 0 \/ nh < 2 \/ Ev.host # hosts[Len(hosts)], "retry-on-same-host")
         /\ att' = att + 1 /\ hosts' = Append(hosts, Ev.host) /\ last' = "pending" /\ attAt' = Ev.at
@@ -48,7 +53,7 @@ TReply == /\ IsEvent("reply")
           /\ UNCHANGED <<pol, script, att, rem, st, last, hosts, nh, cg, ct, attAt, firstAt>>
 
 (* a retry that the table asks for may be pre-empted only by the global timeout (runs with a short one) *)
-RetryDue == att >= 1 /\ att < 1 + Budget(pol) /\ Known(last) /\ Retryable(pol, last)
+RetryDue == att >= 1 /\ att < 1 + Budget(pol) /\ Known(last) /\ Must(pol, last)
 
 TFin == /\ IsEvent("fin")
         /\ Expect(Ev.kind = "response", "no-reply")
